@@ -85,3 +85,10 @@ Print Assumptions C16_optimiser_result_not_worse.
 Theorem C16_modelled_pipeline_is_the_pipeline : forall nw, stmt_pipeline_result_opt_is_pipeline_result nw.
 Proof. exact pipeline_result_opt_is_pipeline_result. Qed.
 Print Assumptions C16_modelled_pipeline_is_the_pipeline.
+
+(** the product of the stages begins at the flow: the tours decoded from any feasible flows of the per-type networks satisfy
+    every hypothesis the stage theorems put on "the flow tours" (ChainFacts.v), and the pipeline built on them returns *)
+From RS Require Import ChainStmts ChainFacts.
+Theorem C16_decoded_tours_feed_the_pipeline : stmt_decoded_tours_feed_pipeline.
+Proof. exact decoded_tours_feed_pipeline. Qed.
+Print Assumptions C16_decoded_tours_feed_the_pipeline.
